@@ -44,6 +44,9 @@ type Opts struct {
 	TTL        time.Duration
 	// NoAutoDeliver: membership events stay queued until the engine delivers them.
 	NoAutoDeliver bool
+	// Custom: the eviction / idle / default-TTL settings above are given for this one DMap name
+	// (config.DMaps.Custom) instead of for all DMaps.
+	Custom string
 	// Async: ReplicationMode = asynchronous. The replication goroutines a Put starts are queued and
 	// run when the engine calls DeliverAsync (sequential engines only).
 	Async bool
@@ -192,14 +195,22 @@ func (c *Cluster) newConfig(idx int) *config.Config {
 	if err := cfg.DMaps.Engine.Sanitize(); err != nil {
 		panic(err)
 	}
-	if o.LRU {
-		cfg.DMaps.EvictionPolicy = config.LRUEviction
-		cfg.DMaps.MaxKeys = o.MaxKeys
-		cfg.DMaps.MaxInuse = o.MaxInuse
-		cfg.DMaps.LRUSamples = o.LRUSamples
+	if o.Custom != "" {
+		d := config.DMap{MaxIdleDuration: o.MaxIdle, TTLDuration: o.TTL}
+		if o.LRU {
+			d.EvictionPolicy, d.MaxKeys, d.MaxInuse, d.LRUSamples = config.LRUEviction, o.MaxKeys, o.MaxInuse, o.LRUSamples
+		}
+		cfg.DMaps.Custom = map[string]config.DMap{o.Custom: d}
+	} else {
+		if o.LRU {
+			cfg.DMaps.EvictionPolicy = config.LRUEviction
+			cfg.DMaps.MaxKeys = o.MaxKeys
+			cfg.DMaps.MaxInuse = o.MaxInuse
+			cfg.DMaps.LRUSamples = o.LRUSamples
+		}
+		cfg.DMaps.MaxIdleDuration = o.MaxIdle
+		cfg.DMaps.TTLDuration = o.TTL
 	}
-	cfg.DMaps.MaxIdleDuration = o.MaxIdle
-	cfg.DMaps.TTLDuration = o.TTL
 	day := 24 * time.Hour
 	cfg.RoutingTablePushInterval = day
 	cfg.TriggerBalancerInterval = day
